@@ -339,8 +339,16 @@ def dyadic_contracts(plan, tier):
         self_.f["k"] = z3.Int(ctx.fresh_name("norm.k"))
         ctx.assume(S.to_z3(denotes(self_, es, K)))
         return None
+    def mc_zo_eq(it, args, kwargs):
+        """ZOmega.__eq__ by its contract (verified in this module): component-wise equality, as ONE formula (no path fork)"""
+        self_, other = args
+        if isinstance(other, Rec) and other.cls.name == "ZOmega":
+            return S.to_z3(eqv(vo(self_), vo(other)))
+        if isinstance(other, int) or (isinstance(other, z3.ArithRef) and other.is_int()):
+            return S.to_z3(eqv(vo(self_), (other, 0, 0, 0)))
+        raise Unsupp("ZOmega.__eq__ with this operand")
     xb = {"np.allclose": b_allclose, "math.pow": b_math_pow}
-    w_norm = World(RINGS, classes=ring, extra_builtins=xb)
+    w_norm = World(RINGS, classes=ring, extra_builtins=xb, modular={"ZOmega.__eq__": mc_zo_eq})
     w_init = World(RINGS, classes=ring, extra_builtins=xb, modular={"DyadicMatrix.normalize": mc_normalize})
     wd = World(RINGS, classes=ring, extra_builtins=xb, modular={"DyadicMatrix.__init__": mc_init})
 
